@@ -1,6 +1,13 @@
 PROPS["C20"] = dict(
-    jobs=[job("pseudo", "c20_pseudo", cases={Q: 3, T: 256})],
-    rule="A: for each of the 19 words and each of the 65536 values (split over shards; --cases = random well-formed states "
+    jobs=[job("pseudo", "c20_pseudo", cases={Q: 3, T: 256}),
+          # the annotated disassembler called from 2-4 threads at once, each with its own ar/arp settings (behavioural
+          # comparison in the fast build, data races in the ThreadSanitizer build)
+          job("annot-concurrent", "purity", cases={Q: 8, T: 200}, shards=4, mode="concurrent", args={"prop": "C20"}),
+          job("annot-concurrent-tsan", "purity", flavour="tsan", cases={Q: 2, T: 40}, shards=4, mode="concurrent", args={"prop": "C20", "iters": 40})],
+    parallel=8,
+    rule="annot-concurrent: 2-4 threads call GetTokenList/Do (and the C binding / Decode) on ar/arp-sensitive opcodes at the same time, each thread with its "
+         "own ArArpSettings, 300 passes over 48 calls; every result must equal the one the same call gives when nothing else runs; the same under ThreadSanitizer. "
+         "A: for each of the 19 words and each of the 65536 values (split over shards; --cases = random well-formed states "
          "per shard, including active loop nests and pending interrupts): Set<W>(v) on the real RegisterState, full state "
          "compared with the layout table's prediction, then all 19 words read and compared with the composition of the "
          "table's fields; 24 values per 256 also go through real instructions (mov #imm/abl -> W, pop W, push W, mov W -> abl, "
